@@ -3,6 +3,7 @@ import TsRsVerif.Lemmas.BuiltinLemmas
 import TsRsVerif.Lemmas.MemberLemmas
 import TsRsVerif.Props.C12
 import TsRsVerif.Lemmas.SubstLemmas
+import TsRsVerif.Lemmas.MemberOpt
 /-! End-to-end soundness of the tree-level derive against the serde model, for the core fragment. -/
 namespace TsRs
 open Text Ts Builtin Tree
@@ -106,20 +107,45 @@ theorem substList_map (σ : List (Str × Ts)) : ∀ (ts : List Ts), Ts.substList
 theorem cleanVL_cons {v : RVal} {vs : List RVal} (h : cleanVL (v :: vs) = true) : cleanV v = true ∧ cleanVL vs = true := by
   simpa [cleanVL] using h
 
-/-- the named fields of a body: the entries serde writes are, one by one, members of the declared properties -/
+theorem serTy_option_some (cfg : Cfg) (env : Env) (f : Nat) (t : RTy) (v : RVal) (j : JVal)
+    (hs : Serde.serTy cfg env f (.option t) v = some j) (hn : Serde.isNoneVal v = false) :
+    ∃ x, v = .some x ∧ Serde.serTy cfg env f t x = some j := by
+  cases f with
+  | zero => simp [Serde.serTy] at hs
+  | succ f' =>
+    simp only [Serde.serTy] at hs ⊢
+    cases v with
+    | none => simp [Serde.isNoneVal] at hn
+    | some x => exact ⟨x, rfl, by simpa [Builtin.serB] using hs⟩
+    | _ => simp [Builtin.serB] at hs
+
+theorem optMode_ff (of : Opt) (f : Field) (h1 : (optMode of f).1 = false) (h2 : (optMode of f).2 = false) :
+    Derive.isOption f.ty = false := by
+  unfold optMode at h1 h2
+  cases of <;> cases hfo : f.attr.optional <;> simp_all
+
+theorem optionInner_id (t : RTy) (h : Derive.isOption t = false) : Derive.optionInner t = t := by
+  cases t <;> simp_all [Derive.isOption, Derive.optionInner]
+
+theorem isOption_cases (t : RTy) (h : Derive.isOption t = true) : ∃ u, t = .option u := by
+  cases t <;> simp [Derive.isOption] at h
+  exact ⟨_, rfl⟩
+
+/-- the named fields of a body: every property is either written by serde with a member value, or left out and optional -/
 theorem serNamed_sound (cfg : Cfg) (env : Env) (n : Nat) (σ : List (Str × RTy)) (σ' : List (Str × Ts)) (hty : TySound cfg env n σ σ')
-    (ra : Option Rule) :
+    (ra : Option Rule) (of : Opt) :
     ∀ (f : Nat), f ≤ n → ∀ (fields : List Field) (vals : List RVal) (kvs : List (Str × JVal)) (fs : List (TsKey × Ts)),
     Serde.serNamed cfg env f σ ra fields vals = some kvs → cleanVL vals = true →
-    fields.all (fieldOk cfg ra) = true → fieldsTs cfg env ra fields = some fs →
-    ∃ l : List (Str × Ts × JVal), Ts.substFields σ' fs = l.map (fun x => (({ name := x.1 } : TsKey), x.2.1)) ∧ kvs = l.map (fun x => (x.1, x.2.2))
-      ∧ (∀ x ∈ l, Member (declsOf cfg env) x.2.1 x.2.2) ∧ l.map (·.1) = keysOf cfg ra fields
+    fields.all (fieldOkN cfg ra of) = true → fieldsTs cfg env ra of fields = some fs →
+    ∃ l : List Row, Ts.substFields σ' fs = fieldsOf l ∧ kvs = presentOf l
+      ∧ (∀ x ∈ l, match x.2.2.2 with | some j => Member (declsOf cfg env) x.2.2.1 j | none => x.2.1 = true)
+      ∧ l.map (·.1) = keysOf cfg ra fields
   | 0, _, _, _, _, _, hs, _, _, _ => by simp [Serde.serNamed] at hs
   | f + 1, hf, [], [], kvs, fs, hs, _, _, hT => by
     simp only [Serde.serNamed, Option.some.injEq] at hs
     simp only [fieldsTs, Option.some.injEq] at hT
     subst hs; subst hT
-    exact ⟨[], by simp [Ts.substFields], rfl, by simp, by simp [keysOf]⟩
+    exact ⟨[], by simp [Ts.substFields, fieldsOf], by simp [presentOf], by simp, by simp [keysOf]⟩
   | f + 1, hf, [], _ :: _, kvs, fs, hs, _, _, _ => by simp [Serde.serNamed] at hs
   | f + 1, hf, _ :: _, [], kvs, fs, hs, _, _, _ => by simp [Serde.serNamed] at hs
   | f + 1, hf, fld :: flds, v :: vs, kvs, fs, hs, hc, hok, hT => by
@@ -132,13 +158,13 @@ theorem serNamed_sound (cfg : Cfg) (env : Env) (n : Nat) (σ : List (Str × RTy)
     | some rest =>
       simp only [hr] at hs
       simp only [fieldsTs, bind, Option.bind] at hT
-      cases hrt : fieldsTs cfg env ra flds with
+      cases hrt : fieldsTs cfg env ra of flds with
       | none => simp [hrt] at hT
       | some rfs =>
         simp only [hrt] at hT
-        obtain ⟨l, hl1, hl2, hl3, hl4⟩ := serNamed_sound cfg env n σ σ' hty ra f (by omega) flds vs rest rfs hr hcvs hrest hrt
-        simp only [fieldOk, Bool.and_eq_true, Bool.not_eq_true', beq_iff_eq, Option.isNone_iff_eq_none, Bool.or_eq_true] at hfo
-        obtain ⟨⟨⟨⟨⟨⟨hinl, hflat⟩, hopt⟩, hta⟩, hto⟩, hssn⟩, hkey⟩ := hfo
+        obtain ⟨l, hl1, hl2, hl3, hl4⟩ := serNamed_sound cfg env n σ σ' hty ra of f (by omega) flds vs rest rfs hr hcvs hrest hrt
+        simp only [fieldOkN, Bool.and_eq_true, Bool.not_eq_true', Option.isNone_iff_eq_none, Bool.or_eq_true] at hfo
+        obtain ⟨⟨⟨⟨hinl, hflat⟩, hta⟩, hto⟩, hcond⟩ := hfo
         by_cases hskip : fld.attr.skip = true
         · simp only [hskip, ↓reduceIte, pure, Option.some.injEq] at hs hT
           subst hs; subst hT
@@ -146,31 +172,82 @@ theorem serNamed_sound (cfg : Cfg) (env : Env) (n : Nat) (σ : List (Str × RTy)
           simp [keysOf, hskip] at hl4 ⊢
           exact hl4
         · have hskip' : fld.attr.skip = false := by simpa using hskip
-          simp only [hskip', Bool.false_eq_true, ↓reduceIte, hssn, Bool.false_and] at hs
-          simp only [hskip', Bool.false_eq_true, ↓reduceIte] at hT
-          cases hj : Serde.serTy cfg env f (RTy.subst σ fld.ty) v with
-          | none => simp [hj] at hs
-          | some j =>
-            cases ht : tyTs cfg env fld.ty with
-            | none => simp [ht] at hT
-            | some T =>
-              simp only [hj, hflat, Bool.false_eq_true, ↓reduceIte, pure, Option.some.injEq] at hs
-              simp only [ht, pure, Option.some.injEq] at hT
-              have hm := hty f (by omega) fld.ty v j T hj hcv ht
-              have hk : fieldKey cfg ra fld = Serde.fieldKey cfg ra fld := by
-                rcases hkey with h | h
-                · rw [hskip'] at h; cases h
+          rcases hcond with hcond | hcond
+          · rw [hskip'] at hcond; cases hcond
+          simp only [Bool.and_eq_true, beq_iff_eq, Bool.or_eq_true, Bool.not_eq_true', Bool.and_eq_false_imp] at hcond
+          obtain ⟨⟨⟨⟨hk, hssq⟩, hqopt⟩, hqs⟩, hofp⟩ := hcond
+          simp only [hskip', Bool.false_eq_true, ↓reduceIte] at hs hT
+          -- the type the derive prints for the property
+          cases ht : tyTs cfg env (if (optMode of fld).2 = true then fld.ty else Derive.optionInner fld.ty) with
+          | none => simp [ht] at hT
+          | some T =>
+            simp only [ht, pure, Option.some.injEq] at hT
+            subst hT
+            have hkeys : (Serde.fieldKey cfg ra fld :: l.map (·.1)) = keysOf cfg ra (fld :: flds) := by
+              simp [keysOf, hskip'] at hl4 ⊢
+              exact hl4
+            by_cases hnone : (fld.attr.skipSerIfNone && Serde.isNoneVal v) = true
+            · -- serde leaves the property out; it is written `name?:`
+              simp only [hnone, ↓reduceIte, pure, Option.some.injEq] at hs
+              subst hs
+              have hq : (optMode of fld).1 = true := by
+                simp only [Bool.and_eq_true] at hnone
+                rcases hssq with h | h
+                · rw [hnone.1] at h; cases h
                 · exact h
-              subst hs; subst hT
-              refine ⟨(Serde.fieldKey cfg ra fld, Ts.subst σ' T, j) :: l, ?_, ?_, ?_, ?_⟩
-              · simp [Ts.substFields, hl1, hk]
-              · simp [hl2]
+              refine ⟨(Serde.fieldKey cfg ra fld, true, Ts.subst σ' T, none) :: l, ?_, ?_, ?_, ?_⟩
+              · simp [Ts.substFields, fieldsOf, hl1, hk, hq]
+              · simp [presentOf, hl2]
               · intro x hx
                 rcases List.mem_cons.mp hx with rfl | hx'
-                · exact hm
+                · simp
                 · exact hl3 x hx'
-              · simp [keysOf, hskip'] at hl4 ⊢
-                exact hl4
+              · simpa using hkeys
+            · simp only [hnone, Bool.false_eq_true, ↓reduceIte] at hs
+              cases hj : Serde.serTy cfg env f (RTy.subst σ fld.ty) v with
+              | none => simp [hj] at hs
+              | some j =>
+                simp only [hj, hflat, Bool.false_eq_true, ↓reduceIte, pure, Option.some.injEq] at hs
+                subst hs
+                have hm : Member (declsOf cfg env) (Ts.subst σ' T) j := by
+                  by_cases hnul : (optMode of fld).2 = true
+                  · simp only [hnul, ↓reduceIte] at ht
+                    exact hty f (by omega) fld.ty v j T hj hcv ht
+                  · have hnul' : (optMode of fld).2 = false := by simpa using hnul
+                    simp only [hnul', Bool.false_eq_true, ↓reduceIte] at ht
+                    by_cases hq : (optMode of fld).1 = true
+                    · -- `name?: T` without `| null`: the field is an Option, `None` is skipped, so the value is `Some x`
+                      have hopt : Derive.isOption fld.ty = true := by
+                        rcases hqopt with h | h
+                        · rw [hq] at h; cases h
+                        · exact h
+                      obtain ⟨u, hu⟩ := isOption_cases fld.ty hopt
+                      have hss : fld.attr.skipSerIfNone = true := by
+                        rcases hqs with h | h
+                        · have := h hq; simp [hnul'] at this
+                        · exact h
+                      have hvn : Serde.isNoneVal v = false := by
+                        cases hv : Serde.isNoneVal v with
+                        | false => rfl
+                        | true => simp [hss, hv] at hnone
+                      rw [hu] at hj ht
+                      simp only [RTy.subst] at hj
+                      simp only [Derive.optionInner] at ht
+                      obtain ⟨x, hvx, hjx⟩ := serTy_option_some cfg env f _ v j hj hvn
+                      subst hvx
+                      exact hty f (by omega) u x j T hjx (by simpa [cleanV] using hcv) ht
+                    · -- neither `?` nor `| null` to drop: a non-Option field under the container's `optional_fields`
+                      have hq' : (optMode of fld).1 = false := by simpa using hq
+                      rw [optionInner_id _ (optMode_ff of fld hq' hnul')] at ht
+                      exact hty f (by omega) fld.ty v j T hj hcv ht
+                refine ⟨(Serde.fieldKey cfg ra fld, (optMode of fld).1, Ts.subst σ' T, some j) :: l, ?_, ?_, ?_, ?_⟩
+                · simp [Ts.substFields, fieldsOf, hl1, hk]
+                · simp [presentOf, hl2]
+                · intro x hx
+                  rcases List.mem_cons.mp hx with rfl | hx'
+                  · exact hm
+                  · exact hl3 x hx'
+                · simpa using hkeys
 
 /-- tuple fields: element-wise membership -/
 theorem serTuple_sound (cfg : Cfg) (env : Env) (n : Nat) (σ : List (Str × RTy)) (σ' : List (Str × Ts)) (hty : TySound cfg env n σ σ')
@@ -236,12 +313,12 @@ theorem serTuple_length (cfg : Cfg) (env : Env) (σ : List (Str × RTy)) : ∀ (
 
 /-- the body of a struct / the content of a variant -/
 theorem structBody_sound (cfg : Cfg) (env : Env) (n : Nat) (σ : List (Str × RTy)) (σ' : List (Str × Ts)) (hty : TySound cfg env n σ σ')
-    (f : Nat) (hf : f ≤ n) (ra : Option Rule) (tag : Option Str) (name : Str) (shape : Shape) (fields : List Field)
+    (f : Nat) (hf : f ≤ n) (ra : Option Rule) (of : Opt) (tag : Option Str) (name : Str) (shape : Shape) (fields : List Field)
     (vals : List RVal) (j : JVal) (T : Ts)
     (hs : Serde.serStructBody cfg env f σ ra tag name shape fields vals = some j) (hc : cleanVL vals = true)
-    (hok : bodyOk cfg ra tag shape fields = true)
+    (hok : bodyOk cfg ra of tag shape fields = true)
     (hnt : ∀ fld, shape = .tuple → fields = [fld] → fld.attr.skip = false)
-    (hT : structBody cfg env ra (tag.map fun t => (t, name)) shape fields = some T) :
+    (hT : structBody cfg env ra of (tag.map fun t => (t, name)) shape fields = some T) :
     Member (declsOf cfg env) (Ts.subst σ' T) j := by
   cases f with
   | zero => simp [Serde.serStructBody] at hs
@@ -254,6 +331,7 @@ theorem structBody_sound (cfg : Cfg) (env : Env) (n : Nat) (σ : List (Str × RT
       simp only [structBody, Option.some.injEq] at hT
       subst hs; subst hT; simp only [Ts.subst]; exact Member.null
     | named =>
+      simp only [beq_self_eq_true, ↓reduceIte] at hfields
       simp only [Serde.serStructBody, bind, Option.bind] at hs
       cases hk : Serde.serNamed cfg env f' σ ra fields vals with
       | none => simp [hk] at hs
@@ -276,11 +354,11 @@ theorem structBody_sound (cfg : Cfg) (env : Env) (n : Nat) (σ : List (Str × RT
               exact Member.emptyRecord
             | cons _ _ => simp [Serde.serNamed] at hk
         · simp only [hemp, Bool.false_eq_true, ↓reduceIte, bind, Option.bind] at hT
-          cases hfs : fieldsTs cfg env ra fields with
+          cases hfs : fieldsTs cfg env ra of fields with
           | none => simp [hfs] at hT
           | some fs =>
             simp only [hfs, pure, Option.some.injEq] at hT
-            obtain ⟨l, hl1, hl2, hl3, hl4⟩ := serNamed_sound cfg env n σ σ' hty ra f' (by omega) fields vals kvs fs hk hc hfields hfs
+            obtain ⟨l, hl1, hl2, hl3, hl4⟩ := serNamed_sound cfg env n σ σ' hty ra of f' (by omega) fields vals kvs fs hk hc hfields hfs
             have hnd : (tag.toList ++ keysOf cfg ra fields).Nodup := by simpa using hkeys
             cases tag with
             | none =>
@@ -288,21 +366,22 @@ theorem structBody_sound (cfg : Cfg) (env : Env) (n : Nat) (σ : List (Str × RT
               subst hs; subst hT
               simp only [Ts.subst]
               rw [hl1, hl2]
-              exact obj_sound _ l (by rw [hl4]; simpa using hnd) hl3
+              exact objOpt_sound _ l (by rw [hl4]; simpa using hnd) hl3
             | some t =>
               simp only [Option.map_some, List.singleton_append] at hT hs
               subst hs; subst hT
               simp only [Ts.subst, Ts.substFields]
               rw [hl1, hl2]
-              have := obj_sound (declsOf cfg env) ((t, Ts.lit name, JVal.str name) :: l)
+              have := objOpt_sound (declsOf cfg env) ((t, false, Ts.lit name, some (JVal.str name)) :: l)
                 (by simp only [List.map_cons, hl4]; simpa using hnd)
                 (by
                   intro x hx
                   rcases List.mem_cons.mp hx with rfl | hx'
                   · exact Member.lit name
                   · exact hl3 x hx')
-              simpa using this
+              simpa [fieldsOf, presentOf] using this
     | tuple =>
+      have hfields : fields.all (fieldOk cfg ra) = true := by simpa using hfields
       simp only [Serde.serStructBody] at hs
       simp only [structBody] at hT
       match fields, vals, hs, hT, hfields, hnt, hc with
@@ -364,16 +443,16 @@ theorem serStructBody_ra_irrel (cfg : Cfg) (env : Env) (f : Nat) (σ : List (Str
     | unit => simp [Serde.serStructBody]
     | tuple => simp [Serde.serStructBody]
 
-theorem structBody_ra_irrel (cfg : Cfg) (env : Env) (ra ra' : Option Rule) (tag : Option (Str × Str))
+theorem structBody_ra_irrel (cfg : Cfg) (env : Env) (ra ra' : Option Rule) (of : Opt) (tag : Option (Str × Str))
     (shape : Shape) (fields : List Field) (h : shape ≠ .named) :
-    structBody cfg env ra tag shape fields = structBody cfg env ra' tag shape fields := by
+    structBody cfg env ra of tag shape fields = structBody cfg env ra' of tag shape fields := by
   cases shape with
   | named => exact absurd rfl h
   | unit => simp [structBody]
   | tuple => simp [structBody]
 
 theorem structBody_unitLike (cfg : Cfg) (env : Env) (ra : Option Rule) (var : Variant) (h : var.unitLike = true) :
-    structBody cfg env ra none var.shape var.fields = some .null := by
+    structBody cfg env ra .no none var.shape var.fields = some .null := by
   unfold Variant.unitLike at h
   simp only [Bool.or_eq_true, decide_eq_true_eq, Bool.and_eq_true] at h
   rcases h with h | ⟨h1, h2⟩
@@ -417,9 +496,9 @@ theorem variant_sound (cfg : Cfg) (env : Env) (n : Nat) (σ : List (Str × RTy))
       rw [hname] at hT
       have hbody : ∀ (tag : Option Str) (nm : Str) (c : JVal) (B : Ts),
           Serde.serStructBody cfg env f' σ (Serde.renameAllS it var) tag nm var.shape var.fields vals = some c →
-          bodyOk cfg (renameAllT it var) tag var.shape var.fields = true →
+          bodyOk cfg (renameAllT it var) .no tag var.shape var.fields = true →
           var.unitLike = false →
-          structBody cfg env (renameAllT it var)
+          structBody cfg env (renameAllT it var) .no
             (tag.map fun t => (t, nm)) var.shape var.fields = some B →
           Member (declsOf cfg env) (Ts.subst σ' B) c := by
         intro tag nm c B h1 h2 hul h3
@@ -433,9 +512,9 @@ theorem variant_sound (cfg : Cfg) (env : Env) (n : Nat) (σ : List (Str × RTy))
             unfold renameAllT Serde.renameAllS
             cases var.attr.renameAll <;> simp [hsh]
           rw [e] at h2 h3
-          exact structBody_sound cfg env n σ σ' hty f' (by omega) _ tag nm var.shape var.fields vals c B h1 hc h2 hnt h3
+          exact structBody_sound cfg env n σ σ' hty f' (by omega) _ .no tag nm var.shape var.fields vals c B h1 hc h2 hnt h3
         · rw [serStructBody_ra_irrel cfg env f' σ _ (renameAllT it var) tag nm var.shape var.fields vals hsh] at h1
-          exact structBody_sound cfg env n σ σ' hty f' (by omega) _ tag nm var.shape var.fields vals c B h1 hc h2 hnt h3
+          exact structBody_sound cfg env n σ σ' hty f' (by omega) _ .no tag nm var.shape var.fields vals c B h1 hc h2 hnt h3
       cases htgd : (if var.attr.untagged = true then Derive.Tagged.untagged else Derive.tagged it.attr) with
       | untagged =>
         simp only [htgd] at hs hT htg
@@ -458,7 +537,7 @@ theorem variant_sound (cfg : Cfg) (env : Env) (n : Nat) (σ : List (Str × RTy))
               (Serde.variantKey cfg it.attr.renameAll var) var.shape var.fields vals with
           | none => simp [hcnt] at hs
           | some c =>
-            cases hB : structBody cfg env (renameAllT it var)
+            cases hB : structBody cfg env (renameAllT it var) .no
                 none var.shape var.fields with
             | none => simp [hB] at hT
             | some B =>
@@ -478,7 +557,7 @@ theorem variant_sound (cfg : Cfg) (env : Env) (n : Nat) (σ : List (Str × RTy))
               (Serde.variantKey cfg it.attr.renameAll var) var.shape var.fields vals with
           | none => simp [hcnt] at hs
           | some c =>
-            cases hB : structBody cfg env (renameAllT it var)
+            cases hB : structBody cfg env (renameAllT it var) .no
                 none var.shape var.fields with
             | none => simp [hB] at hT
             | some B =>
@@ -585,7 +664,7 @@ theorem item_step (cfg : Cfg) (env : Env) (hF : fragB cfg env = true) (n : Nat) 
   | succ f =>
     simp only [Serde.serItem, hfind, zip_map_names] at hs
     simp only [itemOk, Bool.and_eq_true, List.isEmpty_iff, Option.isNone_iff_eq_none, beq_iff_eq] at hok
-    obtain ⟨⟨⟨⟨_, _⟩, _⟩, _⟩, hrest⟩ := hok
+    obtain ⟨⟨⟨_, _⟩, _⟩, hrest⟩ := hok
     by_cases hen : it.isEnum = true
     · simp only [hen, ↓reduceIte] at hs hrest
       cases v with
@@ -597,7 +676,9 @@ theorem item_step (cfg : Cfg) (env : Env) (hF : fragB cfg env = true) (n : Nat) 
           simp only [hvar] at hs
           have hvmem : var ∈ it.variants := List.mem_of_getElem? hvar
           have hvok : variantOk cfg it var = true := by
-            rw [List.all_eq_true] at hrest; exact hrest var hvmem
+            simp only [Bool.and_eq_true] at hrest
+            have h2 := hrest.2
+            rw [List.all_eq_true] at h2; exact h2 var hvmem
           have hnsk : var.attr.skip = false := by
             cases f with
             | zero => simp [Serde.serVariant] at hs
@@ -640,7 +721,7 @@ theorem item_step (cfg : Cfg) (env : Env) (hF : fragB cfg env = true) (n : Nat) 
           have := hrest.2
           simp only [hsh, hfl, beq_self_eq_true, Bool.true_and] at this
           exact this
-        exact structBody_sound cfg env (f + 1) _ _ hty f (by omega) it.attr.renameAll it.attr.tag (Derive.tsName it) it.shape it.fields vals j body hs hcv hrest.1 hnt hb
+        exact structBody_sound cfg env (f + 1) _ _ hty f (by omega) it.attr.renameAll it.attr.optionalFields it.attr.tag (Derive.tsName it) it.shape it.fields vals j body hs hcv hrest.1 hnt hb
       | _ => simp at hs
 
 /-- **every serialization of a user type is sound**, at every fuel -/
